@@ -49,6 +49,17 @@ def _load_gen():
 gen = _load_gen()
 
 
+def _load_wrap():
+    spec = importlib.util.spec_from_file_location("c07_wrap", os.path.join(HERE, "wrap.py"))
+    m = importlib.util.module_from_spec(spec)
+    spec.loader.exec_module(m)
+    return m
+
+
+wrap = _load_wrap()
+WRAP_BUDGETS = (5, 15)    # watchdog of the compressed-container leg: inputs are <= 150 kB, a run takes ~50 ms
+
+
 # --------------------------------------------------------------------------- constants for the Coq side
 
 def regen_gen_v():
@@ -176,18 +187,22 @@ class Tools:
         self.stalls = []
         self.confirmed = set()
 
-    def _run(self, argv, stdin_bytes, out):
+    def _run(self, argv, stdin_bytes, out, budgets=None, full=False):
         t0 = time.time()
         rc = err = None
         timed = True
+        partial = False
+        budgets = budgets or (CASE_TIMEOUT * 2, CASE_TIMEOUT * 6)
         # a time-out must reproduce when the case is run again on its own with three times the budget
         # (this box is shared with other checks; a stall of a 30 ms process is not a hang)
-        for attempt, budget in enumerate((CASE_TIMEOUT * 2, CASE_TIMEOUT * 6)):
+        for attempt, budget in enumerate(budgets):
             if attempt and argv[0] in self.confirmed:
                 break      # this tool already has a confirmed hang in this run; do not spend 30 s per further case
             try:
                 if attempt:
                     with self.lock:
+                        if argv[0] in self.confirmed:      # confirmed while this thread was waiting for its turn
+                            break
                         r = subprocess.run(argv, input=stdin_bytes, stdout=subprocess.PIPE, stderr=subprocess.PIPE,
                                            env=ASAN_ENV, timeout=budget, cwd=self.dir)
                 else:
@@ -201,15 +216,20 @@ class Tools:
                 if attempt:
                     self.confirmed.add(argv[0])
                 if os.path.exists(out):
+                    partial = True
                     os.unlink(out)
-        return self.judge(rc, err, timed, out, time.time() - t0)
+        res = self.judge(rc, err, timed, out, time.time() - t0, budgets)
+        if res and res[0] == "timeout" and partial:
+            res = (res[0], res[1] + "; a partial output file was there when the watchdog fired")
+        return (res, rc, err) if full else res
 
-    def judge(self, rc, err, timed, out, dt):
+    def judge(self, rc, err, timed, out, dt, budgets=None):
         """the property, evaluated on one run: returns None or (signature suffix, text)"""
         exists = os.path.exists(out)
+        budgets = budgets or (CASE_TIMEOUT * 2, CASE_TIMEOUT * 6)
         try:
             if timed:
-                return ("timeout", "did not terminate within %d s (and again not within %d s when run alone)" % (CASE_TIMEOUT * 2, CASE_TIMEOUT * 6))
+                return ("timeout", "did not terminate within %d s (and again not within %d s when run alone)" % tuple(budgets[:2]))
             sig = san_signature(err)
             if sig:
                 k = max(err.find("ERROR: AddressSanitizer"), err.find("runtime error:") - 120, 0)
@@ -243,6 +263,11 @@ class Tools:
         self.n += 1
         out = os.path.join(self.dir, "o%d.sqfs" % self.n)
         return self._run([self.t2s, "-q", "-f", out], data, out)
+
+    def tar2sqfs_full(self, data, name, budgets=None):
+        """-> (judge result, exit status or None, stderr); `name` makes the output path unique among concurrent callers"""
+        out = os.path.join(self.dir, "w-%s.sqfs" % name)
+        return self._run([self.t2s, "-q", "-f", out], data, out, budgets=budgets, full=True)
 
     def gensquashfs(self, pack=None, sort=None, xattr=None):
         self.n += 1
@@ -763,6 +788,81 @@ def part_text_tools(ctx, tools, stats):
     return len(jobs)
 
 
+
+# --------------------------------------------------------------------------- malformed compressed containers (session 3, seed C07-9)
+
+def tar_model_says_err(drv):
+    """C07's tar-level expectation: True when the extracted model of the tar reader answers ERR on the byte stream"""
+    cache = {}
+    lock = threading.Lock()
+    cmd = ["sh", "-c", 'ulimit -s unlimited 2>/dev/null || ulimit -s 4000000 2>/dev/null; exec "$0" "$@"', drv, "tar"]
+
+    def f(data):
+        with lock:
+            if data in cache:
+                return cache[data]
+        o, _ = run_batch(cmd, [data.hex() or "-"], timeout=120)
+        v = (o[0] or "").rstrip().endswith("ERR")
+        with lock:
+            cache[data] = v
+        return v
+    return f
+
+
+def wrapped_verdict(tools, case, name):
+    """the property on one container: (signature suffix, text) or None"""
+    res, rc, err = tools.tar2sqfs_full(case["data"], name, budgets=WRAP_BUDGETS)
+    if res:
+        return res, rc
+    if rc == 0 and case["must_reject"]:
+        return ("malformed-accepted", "exit 0 (valid image written) although the input is malformed: %s" % case["why"]), rc
+    return None, rc
+
+
+def part_wrapped(ctx, info, drv, tools, stats):
+    """tar archives inside gzip / xz / bzip2 / zstd containers that are themselves malformed (props/C07/wrap.py)"""
+    rnd = random.Random(ctx.seed * 7919 + 6)
+    refzstd = wrap.build_refzstd(core.CACHE, os.path.join(core.VERIF, "props", "C15", "refzstd.c"))
+    if not refzstd:
+        ctx.notes.append("wrapped leg: no reference zstd (props/C15/refzstd.c does not build against the system libzstd): zstd containers skipped")
+    cases = wrap.cases(gen, rnd, ctx.tier, refzstd)
+    model = tar_model_says_err(drv)
+    with ThreadPoolExecutor(max_workers=8) as ex:
+        list(ex.map(lambda c: wrap.classify(c, refzstd, model), cases))
+    with ThreadPoolExecutor(max_workers=12) as ex:
+        results = list(ex.map(lambda ic: wrapped_verdict(tools, ic[1], "%d" % ic[0]), enumerate(cases)))
+    # a codec whose intact containers are refused cleanly is not compiled in (or broken in a way that is C15's matter):
+    # the must_reject expectation is vacuous for it, only the unconditional part is evaluated
+    skipped = {}
+    for c, (res, rc) in zip(cases, results):
+        if c["variant"].startswith("control") and res is None and rc != 0:
+            skipped.setdefault(c["codec"], c["variant"])
+    for k, v in skipped.items():
+        ctx.notes.append("wrapped leg: tar2sqfs refuses the intact %s container (%s): codec not compiled in? -- not a C07 matter, see C15" % (k, v))
+    fails = {}
+    dist = {}
+    for c, (res, rc) in zip(cases, results):
+        d = dist.setdefault(c["codec"], dict(cases=0, must_reject=0, rejected=0, accepted=0, ref={}))
+        d["cases"] += 1
+        d["must_reject"] += int(c["must_reject"])
+        d["rejected" if rc not in (0, None) else "accepted"] += 1 if rc is not None else 0
+        d["ref"][c["ref"]] = d["ref"].get(c["ref"], 0) + 1
+        if res and not (res[0] == "malformed-accepted" and c["codec"] in skipped):
+            s = "%s:wrapped-%s" % (res[0], c["codec"])
+            if s not in fails:
+                fails[s] = (c, res[1])
+    for s, (c, txt) in fails.items():
+        ctx.violation("tool:tar2sqfs:%s" % s, "tar2sqfs on a malformed %s container (%s, %d bytes; %s): %s"
+                      % (c["codec"], c["variant"], len(c["data"]), c["why"], txt),
+                      dict(part="wrapped", codec=c["codec"], variant=c["variant"], ref=c["ref"], must_reject=c["must_reject"], why=c["why"],
+                           damage_offset=c["damage"], stdin_b64=base64.b64encode(c["data"]).decode()))
+    stats["wrapped"] = dict(cases=len(cases), per_codec=dist, skipped=skipped, refzstd=bool(refzstd))
+    nontrivial = sum(1 for c, (res, rc) in zip(cases, results) if c["must_reject"] and rc not in (0, None))
+    k = next((i for i, c in enumerate(cases) if c["must_reject"]), 0)
+    return len(cases), nontrivial, [dict(part="wrapped", codec=cases[k]["codec"], variant=cases[k]["variant"], bytes=len(cases[k]["data"]),
+                                         expectation=cases[k]["why"], exit_status=results[k][1])]
+
+
 # --------------------------------------------------------------------------- replay
 
 def do_replay(ctx, info, drv, tools):
@@ -808,6 +908,11 @@ def do_replay(ctx, info, drv, tools):
             report_incident(ctx, "text-" + r["mode"], r["case"], kind, err, r)
         if not ic and oc != om:
             ctx.violation("tie:text-" + r["mode"], "replay: impl=%r model=%r" % (oc[0], om[0]), r, no_input=True)
+    if part == "wrapped":
+        c = dict(data=base64.b64decode(r["stdin_b64"]), must_reject=bool(r.get("must_reject")), why=r.get("why", ""))
+        res, rc = wrapped_verdict(tools, c, "replay")
+        if res:
+            ctx.violation("tool:tar2sqfs:%s:wrapped-%s" % (res[0], r.get("codec", "?")), "tar2sqfs on the replayed container: %s" % res[1], r)
     if part == "text-tool" or "pack_b64" in r:
         kw = {k[:-4]: base64.b64decode(v) for k, v in r.items() if k.endswith("_b64") and k[:-4] in ("pack", "sort", "xattr")}
         res = tools.gensquashfs(**kw)
@@ -838,9 +943,12 @@ def run(ctx):
                     "ASan/UBSan verdicts (gcc -fsanitize=address,undefined -fno-sanitize-recover=all), SIGALRM time-out of %d s per case" % CASE_TIMEOUT,
                     "props/C07/gen.py (own tar encoder, mutators), vlib/sqfsimg.py validator for produced images",
                     "props/C07/gen_c07.c: translator /repo headers + <errno.h> -> coq/C07/GenC07.v (regenerated on every run)",
-                    "<ctype.h> in the C locale, strtol(3), strnlen/strndup/strcmp/strchr as specified by ISO C (modelled, not verified)"]
+                    "<ctype.h> in the C locale, strtol(3), strnlen/strndup/strcmp/strchr as specified by ISO C (modelled, not verified)",
+                    "props/C07/wrap.py: reference codecs (Python zlib / lzma / bz2; system libzstd through props/C15/refzstd.c) decide whether a "
+                    "compressed container is malformed and where the archive is complete; format offsets (gzip / xz / bzip2 / zstd framing) computed there"]
     ctx.assumptions += ["bounded time is relative to input length plus announced logical sizes: archives announcing more than %d bytes of file data or carrying a sparse map of more than %d entries are parsed by the harness but not handed to tar2sqfs (tar2sqfs walks the whole sparse map on every read: a 600 kB archive with the maximum of 65536 entries takes about 30 s)" % (MAX_LOGICAL, MAX_SPARSE_TOOL),
-                        "decompressor libraries and the xfrm stream layer are outside this model (C15); inputs are uncompressed tar streams",
+                        "decompressor libraries and the xfrm stream layer are outside the Coq model (C15); the tie feeds uncompressed tar streams; malformed gzip / xz / bzip2 / zstd "
+                        "containers around tar archives are evaluated at tool level only (part_wrapped: watchdog %d s, confirmed alone with %d s)" % WRAP_BUDGETS,
                         "malloc failure paths are not explored (C13)"]
     if ctx.replay:
         do_replay(ctx, info, drv, tools)
@@ -865,6 +973,11 @@ def run(ctx):
     samples += s
     ctx.log("text harness done")
     tr = part_text_tools(ctx, tools, stats)
+    e, n, sm = part_wrapped(ctx, info, drv, tools, stats)
+    tr += e
+    nt += n
+    samples += sm
+    ctx.log("wrapped containers done:", e, "cases")
     ctx.log("text tools done; stalls (attempt, tool, stdin bytes):", tools.stalls[:10])
     stats["tool_timeouts_first_attempt"] = len([x for x in tools.stalls if x[0] == 0])
     ctx.coverage["evaluations"] = ev + tr
@@ -882,7 +995,13 @@ def run(ctx):
         "splits on the ASan harness and the ASan tool; xattr map files additionally: structured files over pools of accepted / refused '# file:' lines, "
         "the three value syntaxes (good and bad), comments, blank lines and NUL, every line ending of {LF, CR LF, CR CR LF, blank+LF, double LF}, with and without "
         "the final newline, and three files larger than the 128 KiB stream window (a line straddling the edge, LF resp. CR as the last byte of the window) "
-        "against the extracted whole-file model run with three window oracles (everything / 7 bytes / 1 byte); seed %d. "
+        "against the extracted whole-file model run with three window oracles (everything / 7 bytes / 1 byte); "
+        "compressed containers (tool level): for each of gzip / xz / bzip2 / zstd a ~140 kB multi-block and a ~3 kB archive, cut at every structural point of the format "
+        "(inside magic / header / block header, mid block, second bzip2 block, before / inside check sum, index, footer, end marker, last byte) and at seeded offsets "
+        "(thorough: every offset of the small container), one bit flipped in payload / trailer / header, trailing garbage (text, zeros, a magic), the container of the "
+        "empty string, well-formed containers of a tar cut inside a header / inside file data / before the END marker, two concatenated members cut around the seam and "
+        "flipped in the second member; refusal is demanded iff the reference decoder refuses the bytes and the damage lies in front of the shortest prefix that decodes "
+        "to the whole archive, or the reference decoder accepts and the tar model answers ERR on the content; seed %d. "
         "non-trivial = the model reaches a resolver verdict (hl), decodes at least one header or rejects after the checksum (tar), decoder accepts (dec)" % ctx.seed)
     ctx.coverage["distribution"] = stats
     ctx.add_samples(samples)
